@@ -1,6 +1,7 @@
 package main
 
 import (
+	"regexp"
 	"encoding/json"
 	"flag"
 	"fmt"
@@ -36,6 +37,8 @@ type options struct {
 	verbose  bool
 	replayD  string
 }
+
+var lineRe = regexp.MustCompile(`(@[^:@]+\.go):\d+`)
 
 func main() {
 	var o options
@@ -454,7 +457,9 @@ func report(o *options, g *Gen, verdicts []*Verdict, fnReports any, underContrac
 	isKnown := func(name string) *knownFinding {
 		for i := range known.Findings {
 			k := &known.Findings[i]
-			if k.Property == o.prop && k.Obligation == name {
+			// a finding is identified by its obligation, not by a source line: the line in a call-site
+			// obligation's name (...@file.go:123) is ignored when the entry does not give one
+			if k.Property == o.prop && (k.Obligation == name || k.Obligation == lineRe.ReplaceAllString(name, "$1")) {
 				return k
 			}
 		}
